@@ -120,6 +120,22 @@ def search(budget):
             if rc != 0 or out.strip().splitlines() != exp:
                 fail("main", "stereo wav with -u %s: printed %r; split(use_channel=%r) gives %r" % (u, out.strip().splitlines()[:4], uc, exp[:4]),
                      argv=argv)
+        # -s 0 is a legal tolerance; --printf accepts format specs and doubled braces like str.format
+        n += 1
+        regs = list(split(data, sr=sr, sw=2, ch=1, min_dur=0.2, max_dur=5, max_silence=0, analysis_window=0.01, energy_threshold=50))
+        try:
+            rc, out, err = run_main([wavp, "-s", "0", "--printf", "{id}"])
+            what = "exit %r, printed %r" % (rc, out.split()[:5])
+        except SystemExit as e:
+            rc, out, what = e.code, "", "argument parser exited with status %r" % (e.code,)
+        if rc != 0 or out.split() != [str(i + 1) for i in range(len(regs))]:
+            fail("main", "-s 0: %s; split(max_silence=0) gives %d detections" % (what, len(regs)))
+        n += 1
+        regs = list(split(data, sr=sr, sw=2, ch=1, min_dur=0.2, max_dur=5, max_silence=0.3, analysis_window=0.01, energy_threshold=50))
+        rc, out, err = run_main([wavp, "--printf", "{id:03d}|{{x}}|{start}"])
+        exp = ["%03d|{x}|%s" % (i + 1, ref_fmt(r.start, "%S")) for i, r in enumerate(regs)]
+        if rc != 0 or out.strip().splitlines() != exp:
+            fail("main", "--printf '{id:03d}|{{x}}|{start}': printed %r, expected %r" % (out.strip().splitlines()[:2], exp[:2]))
         # a failing final export of -O (target is a directory): detections are printed, status 0
         n += 1
         bad_target = os.path.join(tmp, "outdir.raw")
